@@ -48,14 +48,14 @@ func scnCapBasic(name string, nodeSort string) *world.Scenario {
 			{ID: "app2", Queue: "root.b", User: "u2", Groups: []string{"g2"}},
 		},
 		Asks: []world.AskSpec{
-			{Key: "a1", App: "app1", Res: world.MV(1, 1), Create: 1001},
-			{Key: "a2", App: "app1", Res: world.M(2), Create: 1002},
+			{Key: "a1", App: "app1", Res: world.MV(1, 1), Create: 1001, Resize: world.MV(2, 1)},
+			{Key: "a2", App: "app1", Res: world.M(2), Create: 1002, Resize: world.M(1), ResizeNoNode: true},
 			{Key: "b1", App: "app2", Res: world.MV(2, 1), Create: 1003},
 			{Key: "b2", App: "app2", Res: world.M(1), Create: 1004, BoundNode: "n1"},
 		},
 		Foreign:  []world.ForeignSpec{{Key: "f1", Node: "n1", Res: world.M(1), Res2: world.M(2)}},
 		Deny:     [][2]string{{"a2", "n2"}},
-		Alphabet: withOps(alphaCore, "NODE_CAP", "FOREIGN_ADD", "FOREIGN_UPDATE", "FOREIGN_REMOVE", "ASK_BOUND"),
+		Alphabet: withOps(alphaCore, "NODE_CAP", "FOREIGN_ADD", "FOREIGN_UPDATE", "FOREIGN_REMOVE", "ASK_BOUND", "ASK_RESIZE"),
 		Prefix:   []world.Op{op("NODE_ADD", "n1"), op("APP_ADD", "app1")},
 	}
 }
@@ -66,14 +66,14 @@ func init() {
 		mc.Register(&mc.ScenarioDef{Scn: scnCapBasic("acct-basic-"+pol, pol), Monitors: []mc.Monitor{monC03()}})
 	}
 	registerCheck(&CheckDef{Prop: "C01", Level: "model_checking", Technique: "explicit-state BFS over the real ClusterContext (bounded op sequences, canonical-state dedup)",
-		Quick:          []Run{{Scenario: "cap-basic-fair", Depth: 6, MapModes: []int{1}}, {Scenario: "cap-basic-binpacking", Depth: 6, MapModes: []int{1}}, {Scenario: "gang-cap-Soft", Depth: 6, MapModes: []int{1}}, {Scenario: "reserve-cap", Depth: 6, MapModes: []int{1}}},
-		Thorough:       []Run{{Scenario: "cap-basic-fair", Depth: 8, MapModes: []int{1, 2}}, {Scenario: "cap-basic-binpacking", Depth: 8, MapModes: []int{1}}, {Scenario: "gang-cap-Soft", Depth: 8, MapModes: []int{1, 2}}, {Scenario: "reserve-cap", Depth: 8, MapModes: []int{1, 2}}},
+		Quick:          []Run{{Scenario: "cap-basic-fair", Depth: 6, MapModes: []int{1}}, {Scenario: "cap-basic-binpacking", Depth: 6, MapModes: []int{1}}, {Scenario: "gang-cap-Soft", Depth: 6, MapModes: []int{1}}, {Scenario: "reserve-cap", Depth: 6, MapModes: []int{1}}, {Scenario: "gang-cap-drain", Depth: 7, MapModes: []int{1}}, {Scenario: "gang-sparse-cap", Depth: 6, MapModes: []int{1}}},
+		Thorough:       []Run{{Scenario: "gang-cap-drain", Depth: 9, MapModes: []int{1, 2}}, {Scenario: "gang-sparse-cap", Depth: 8, MapModes: []int{1}}, {Scenario: "cap-basic-fair", Depth: 8, MapModes: []int{1, 2}}, {Scenario: "cap-basic-binpacking", Depth: 8, MapModes: []int{1}}, {Scenario: "gang-cap-Soft", Depth: 8, MapModes: []int{1, 2}}, {Scenario: "reserve-cap", Depth: 8, MapModes: []int{1, 2}}},
 		QuickBudget:    150 * time.Second,
 		ThoroughBudget: 40 * time.Minute,
 	})
 	registerCheck(&CheckDef{Prop: "C03", Level: "model_checking", Technique: "explicit-state BFS over the real ClusterContext (bounded op sequences, canonical-state dedup)",
-		Quick:          []Run{{Scenario: "acct-basic-fair", Depth: 6, MapModes: []int{1}}, {Scenario: "gang-acct-Soft", Depth: 6, MapModes: []int{1}}, {Scenario: "gang-acct-Hard", Depth: 6, MapModes: []int{1}}, {Scenario: "reserve-acct", Depth: 6, MapModes: []int{1}}},
-		Thorough:       []Run{{Scenario: "acct-basic-fair", Depth: 8, MapModes: []int{1, 2}}, {Scenario: "gang-acct-Soft", Depth: 8, MapModes: []int{1, 2}}, {Scenario: "gang-acct-Hard", Depth: 8, MapModes: []int{1}}, {Scenario: "reserve-acct", Depth: 8, MapModes: []int{1, 2}}},
+		Quick:          []Run{{Scenario: "acct-basic-fair", Depth: 6, MapModes: []int{1}}, {Scenario: "gang-acct-Soft", Depth: 6, MapModes: []int{1}}, {Scenario: "gang-acct-Hard", Depth: 6, MapModes: []int{1}}, {Scenario: "reserve-acct", Depth: 6, MapModes: []int{1}}, {Scenario: "gang-acct-same", Depth: 6, MapModes: []int{1}}},
+		Thorough:       []Run{{Scenario: "gang-acct-same", Depth: 8, MapModes: []int{1}}, {Scenario: "acct-basic-fair", Depth: 8, MapModes: []int{1, 2}}, {Scenario: "gang-acct-Soft", Depth: 8, MapModes: []int{1, 2}}, {Scenario: "gang-acct-Hard", Depth: 8, MapModes: []int{1}}, {Scenario: "reserve-acct", Depth: 8, MapModes: []int{1, 2}}},
 		QuickBudget:    150 * time.Second,
 		ThoroughBudget: 40 * time.Minute,
 	})
